@@ -103,6 +103,29 @@ Proof.
   intros HU' HI'. rewrite (src_sparse_sokal_sneath_eq U I a b HU' HI'). rewrite (C13_sokalsneath a b n Ca Cb Ba Bb).
   dense_side src_sokal_sneath_eq.
 Qed.
+Corollary C13_src_minkowski (p : R) : p <> 0 ->
+  src_sparse_minkowski RNum U (zi RNum a) (vals RNum a) (zi RNum b) (vals RNum b) p = (src_minkowski RNum da db p, true).
+Proof.
+  intros Hp. rewrite (src_sparse_minkowski_eq RNum U a b HU p). rewrite (C13_minkowski a b n p Hp Ca Cb Ba Bb).
+  f_equal. fold da db. rewrite (src_minkowski_eqR p da db Lab).
+  destruct (C13_dense_is_C12 da db Lab) as (_ & _ & _ & E & _). apply E.
+Qed.
+
+Corollary C13_src_bray_curtis :
+  src_sparse_bray_curtis RNum U (zi RNum a) (vals RNum a) (zi RNum b) (vals RNum b) = (src_bray_curtis RNum da db, true).
+Proof.
+  rewrite (src_sparse_bray_curtis_eq RNum U a b HU). rewrite (C13_braycurtis a b n Ca Cb Ba Bb).
+  f_equal. dense_side (src_bray_curtis_eq RNum).
+Qed.
+
+Corollary C13_src_russellrao (I : list Z -> list Z -> list Z) : (0 < n)%nat ->
+  zlen (I (zi RNum a) (zi RNum b)) = n_inter RNum a b ->
+  src_sparse_russellrao RNum I (zi RNum a) (vals RNum a) (zi RNum b) (vals RNum b) (Z.of_nat n) = src_russellrao RNum da db.
+Proof.
+  intros Hn HI'. rewrite (src_sparse_russellrao_eq RNum I a b HI' n). rewrite (C13_russellrao a b n Hn Ca Cb Ba Bb).
+  dense_side src_russellrao_eq.
+Qed.
+
 (* cosine: the product row is written into the buffer arr_intersect returns (only its length matters) *)
 Corollary C13_src_cosine (I : list Z -> list Z -> list Z) :
   (length (arr_intersect (inds RNum a) (inds RNum b)) <= length (I (zi RNum a) (zi RNum b)))%nat ->
